@@ -1,29 +1,43 @@
 #!/usr/bin/env python3
-"""run_seeded.py [seed-name ...]  - apply each kept seeded change to /repo, run the checks, undo it, record which fired.
-Writes /verif/seeded/RESULTS.json."""
+"""run_seeded.py [--jobs N] [seed-name ...]
+Applies each kept seeded change, runs every check (`./check all`), undoes the change and records which checks fired in
+/verif/seeded/RESULTS.json.
+ default     : serially on /repo itself (git -C /repo apply ; check ; git -C /repo checkout -- .)
+ --jobs N    : N scratch worktrees of /repo's HEAD under /tmp (removed afterwards), one seed at a time in each; the checks
+               are pointed at the worktree with SDLINT_REPO - same verdicts, N times faster."""
 import json
 import os
 import subprocess
 import sys
+import threading
 
 SEEDED = "/verif/seeded"
-names = sys.argv[1:] or sorted(n for n in os.listdir(SEEDED) if os.path.isdir(os.path.join(SEEDED, n)))
-props = [json.loads(l)["id"] for l in open("/verif/properties.jsonl")]
-claimed = [c["property_id"] for c in json.load(open("/verif/MANIFEST.json"))["checks"]]
+args = sys.argv[1:]
+jobs = 0
+if "--jobs" in args:
+    i = args.index("--jobs")
+    jobs = int(args[i + 1])
+    del args[i:i + 2]
+names = args or sorted(n for n in os.listdir(SEEDED) if os.path.isdir(os.path.join(SEEDED, n)))
 resp = os.path.join(SEEDED, "RESULTS.json")
 results = json.load(open(resp)) if os.path.exists(resp) else {}
-for n in names:
+lock = threading.Lock()
+
+
+def sh(cmd, **kw):
+    return subprocess.run(cmd, shell=True, stdout=subprocess.PIPE, stderr=subprocess.STDOUT, text=True, **kw)
+
+
+def run_one(n, tree, evdir):
     d = os.path.join(SEEDED, n)
     meta = json.load(open(os.path.join(d, "meta.json")))
-    assert subprocess.run("git -C /repo status --porcelain", shell=True, stdout=subprocess.PIPE, text=True).stdout.strip() == "", "/repo not clean"
-    r = subprocess.run("git -C /repo apply %s" % os.path.join(d, "patch.diff"), shell=True, stdout=subprocess.PIPE, stderr=subprocess.STDOUT, text=True)
+    assert sh("git -C %s status --porcelain" % tree).stdout.strip() == "", "%s not clean" % tree
+    r = sh("git -C %s apply %s" % (tree, os.path.join(d, "patch.diff")))
     if r.returncode != 0:
-        results[n] = {"property": meta["property"], "applied": False, "note": r.stdout[-300:]}
-        print(n, "does not apply")
-        continue
+        return {"property": meta["property"], "applied": False, "note": r.stdout[-300:]}
     fired = {}
     try:
-        env = dict(os.environ, SDLINT_EVIDENCE="/tmp/sdlint-seed-ev")
+        env = dict(os.environ, SDLINT_EVIDENCE=evdir, SDLINT_REPO=tree)
         r = subprocess.run(["/verif/check", "all"], cwd="/verif", env=env, stdout=subprocess.PIPE, stderr=subprocess.STDOUT, text=True)
         cur = []
         for l in r.stdout.splitlines():
@@ -38,9 +52,40 @@ for n in names:
         if "RESULT" not in r.stdout:
             fired["infrastructure"] = {"exit": r.returncode, "reports": [r.stdout[-400:]]}
     finally:
-        subprocess.run("git -C /repo checkout -- .", shell=True)
-    results[n] = {"property": meta["property"], "applied": True, "detected_by_own_check": meta["property"] in fired,
-                  "fired": fired}
-    print(n, "->", {k: v["exit"] for k, v in fired.items()} or "NOT DETECTED", flush=True)
-    json.dump(results, open(resp, "w"), indent=1)
-subprocess.run("rm -rf /tmp/sdlint-seed-ev", shell=True)
+        sh("git -C %s checkout -- ." % tree)
+    return {"property": meta["property"], "applied": True, "detected_by_own_check": meta["property"] in fired, "fired": fired}
+
+
+def record(n, res):
+    with lock:
+        results[n] = res
+        print(n, "->", {k: v["exit"] for k, v in res.get("fired", {}).items()} or ("NOT DETECTED" if res.get("applied") else "does not apply"), flush=True)
+        json.dump(results, open(resp, "w"), indent=1)
+
+
+if jobs <= 1:
+    for n in names:
+        record(n, run_one(n, "/repo", "/tmp/sdlint-seed-ev"))
+    sh("rm -rf /tmp/sdlint-seed-ev")
+else:
+    queue = list(names)
+
+    def worker(i):
+        tree = "/tmp/sdlint-sw%d" % i
+        sh("git -C /repo worktree remove --force %s" % tree)
+        r = sh("git -C /repo worktree add -q --detach %s HEAD" % tree)
+        try:
+            while True:
+                with lock:
+                    if not queue:
+                        break
+                    n = queue.pop(0)
+                record(n, run_one(n, tree, "/tmp/sdlint-seed-ev%d" % i))
+        finally:
+            sh("git -C /repo worktree remove --force %s; rm -rf /tmp/sdlint-seed-ev%d" % (tree, i))
+    ts = [threading.Thread(target=worker, args=(i,)) for i in range(jobs)]
+    for t in ts:
+        t.start()
+    for t in ts:
+        t.join()
+    sh("git -C /repo worktree prune")
